@@ -19,7 +19,9 @@ META.update({
                   "listener is registered, or in back-off with deadline <= now+500 and poll timeout armed <= 510 and, after process_timeout, ending "
                   "no later than the deadline, or the server is paused); C05_no_strand (fault-free scripts, limit >= 1: no panic/spin, non-empty "
                   "waker queue => waker edge pending, a waiting connection on an un-paused server with a flagged worker has a registered listener "
-                  "with an unreported edge or a back-off with armed timeout); C05_recovers_resume (Resume + one turn) and C05_recovers_backoff "
+                  "with an unreported edge or a back-off with armed timeout) and C05_no_strand_all (the same for EVERY script, worker faults included); "
+                  "C05_commands_in_order + C05_last_command_wins (from any state: one handle_waker call leaves the pause flag = the fold of the "
+                  "queued Pause/Resume interests, i.e. the last command issued wins); C05_recovers_resume (Resume + one turn) and C05_recovers_backoff "
                   "(+510 ms + two turns): the listener is registered, linked, deadline-free and its backlog empty whenever a worker is flagged; "
                   "C05_transient (accept with a pending aborted/reset/refused error EQUALS accept without it); C05_idempotent_* (Pause;Pause = "
                   "Pause, Pause while paused / Resume while running / the second of Resume;Resume are pure queue pops). All closed under the "
